@@ -31,7 +31,7 @@ type Case struct {
 }
 
 func gen(t *rapid.T) *Case {
-	o := vlib.HistGenOpts{Universe: vlib.UniPlain, MinSteps: 0, MaxSteps: 4, WithInit: true, AllowOrphan: false}
+	o := vlib.HistGenOpts{Universe: vlib.UniPlain, MinSteps: 0, MaxSteps: 4, WithInit: true, AllowOrphan: true}
 	c := &Case{Hist: vlib.GenHistCase(t, o), T: vlib.GenStep(t, o)}
 	c.Target = rapid.SampledFrom([]string{"device", "cache", "cache", "cache", "schema"}).Draw(t, "target")
 	c.Kind = rapid.SampledFrom([]string{"error", "error", "error", "restart"}).Draw(t, "kind")
@@ -139,6 +139,10 @@ func Exec(c *Case) (nontrivial bool, labels []string, fail *vlib.Failure) {
 		return false, []string{"discard"}, nil
 	}
 	_ = b.h.DS.TransactionConfirm(ctx, resB.TxID)
+	// paths left behind by an orphan request are unconstrained (C01): what the device keeps for them depends on
+	// which intents were still stored when the retry ran; they are left out of the device comparison
+	b.h.Model.Apply(resB.Resolved)
+	exempt := b.h.Model.Orphaned
 	cacheCalls := b.cdeco.CallList()
 	schemaCalls := b.sdeco.Count()
 	devCalls := b.h.Dev.Calls() - devCallsBefore
@@ -185,7 +189,7 @@ func Exec(c *Case) (nontrivial bool, labels []string, fail *vlib.Failure) {
 		lab["enumerated-all-points"] = true
 	}
 	for _, k := range points {
-		f, fired, phase := oneFault(ctx, c, k, cacheCalls, intB, devB)
+		f, fired, phase := oneFault(ctx, c, k, cacheCalls, intB, devB, exempt)
 		if phase != "" {
 			lab["phase-"+phase] = true
 		}
@@ -345,7 +349,20 @@ func phaseOf(c vlib.CacheCall, idx int, calls []vlib.CacheCall) string {
 	}
 }
 
-func oneFault(ctx context.Context, c *Case, k int, cacheCalls []vlib.CacheCall, intB vlib.StoreDump, devB vlib.Conf) (*vlib.Failure, bool, string) {
+func without(c vlib.Conf, exempt map[string]bool) vlib.Conf {
+	if len(exempt) == 0 {
+		return c
+	}
+	r := vlib.Conf{}
+	for k, v := range c {
+		if !exempt[k] {
+			r[k] = v
+		}
+	}
+	return r
+}
+
+func oneFault(ctx context.Context, c *Case, k int, cacheCalls []vlib.CacheCall, intB vlib.StoreDump, devB vlib.Conf, exempt map[string]bool) (*vlib.Failure, bool, string) {
 	env := vlib.MustEnv()
 	name := env.FreshName("c7a")
 	a, ok := build(ctx, c, name)
@@ -440,7 +457,7 @@ func oneFault(ctx context.Context, c *Case, k int, cacheCalls []vlib.CacheCall, 
 	}
 	_ = a.h.DS.TransactionConfirm(ctx, res2.TxID)
 	intA, _, devA := state(ctx, a)
-	if d := devA.Diff(devB); len(d) > 0 {
+	if d := without(devA, exempt).Diff(without(devB, exempt)); len(d) > 0 {
 		return vlib.Failf("C07:device-diverges:"+c.Target+":"+c.Kind+":"+phase, "%s: after the retry the device differs from the fault-free run (faulted vs fault-free):\n  %s", where, strings.Join(d, "\n  ")), true, phase
 	}
 	if d := vlib.DiffKeys(intB.Keys(), intA.Keys()); len(d) > 0 {
